@@ -127,6 +127,15 @@ example : roundTrip ex7 = some (printExpr ff0 ex7) := by decide +kernel
 example : roundTrip ex8 = some (printExpr ff0 ex8) := by decide +kernel
 example : roundTrip ex9 = some (printExpr ff0 ex9) := by decide +kernel
 
+/-- WITNESS that the key condition of `Canon` is needed (a real defect of `quoteString`, ast/node.go):
+    the parser accepts the map key `'\xff'` (one invalid UTF-8 byte, copied by `unquoteString`), the
+    printer writes it as U+FFFD, which reads back as the three bytes EF BF BD — a different key.
+    Text: `['\xff': 1]` prints as `['�': 1]`. -/
+theorem invalid_utf8_key_not_requotable :
+    Quote.unquoteString [39, 255, 39] = some [255] ∧
+    quoteString [255] = [39, 239, 191, 189, 39] ∧
+    Quote.unquoteString (quoteString [255]) = some [239, 191, 189] := by decide
+
 /-- redundant parentheses: `((1)) + (2 * (3))` renders `1 + 2 * 3` and parses to it -/
 def ex10 : Expr := .bin .add 0 (i 1) (.bin .mul 0 (i 2) (i 3))
 def ts10 : List Tk := [tLP, tLP, ⟨.tInteger, [49]⟩, tRP, tRP, tOp .add, tLP, ⟨.tInteger, [50]⟩, tOp .mul, tLP,
